@@ -449,6 +449,24 @@ def _stress(g, key):
                     g.add_edge(ghost, names[h // 47 % len(names)])
                 else:
                     g.add_node(ghost)
+                # the newcomer must be visible to every memoised answer at once (the caches were warm when it arrived)
+                try:
+                    seen_nx = ghost in [str(x) for x in g.to_networkx().nodes]
+                except Exception:  # noqa: BLE001  (a mixed graph refuses the export)
+                    seen_nx = True
+                try:
+                    seen_adj = g.adjacency_matrix.shape[0] == len(g.get_node_names())
+                except Exception:  # noqa: BLE001
+                    seen_adj = True
+                try:
+                    seen_topo = (not g.is_dag()) or ghost in g.get_topological_order()
+                    if g.is_dag():
+                        g.get_descendants(ghost), g.get_ancestors(ghost)
+                except Exception as e:  # noqa: BLE001
+                    seen_topo = False
+                if not (seen_nx and seen_adj and seen_topo):
+                    _FAILURES.append(f'a node added on warm caches ({ghost!r}) is missing from '
+                                     f'{"the networkx export" if not seen_nx else "the adjacency matrix" if not seen_adj else "the topological order / the ancestor queries"}')
                 _warm(g)
                 (g.delete_node if h // 53 % 2 else g.remove_node)(ghost)
                 done.append('node-came-and-went')
